@@ -11,6 +11,7 @@ import (
 	"github.com/protolambda/ztyp/tree"
 	"github.com/protolambda/ztyp/view"
 
+	"verif/sim/codecsim"
 	"verif/sim/refspec"
 	"verif/sim/sszmodel"
 )
@@ -363,6 +364,13 @@ func (s *sim) checkGenesisLogs() {
 		} else if zr := zst.HashTreeRoot(stdHashFn()); zr != common.Root(sr) {
 			s.viol("C13", "genesis-state-root", fmt.Sprintf("deposit log of %d entries: every field of the genesis state equals the specification's, but the state reports root %s and the same content merkleised from scratch has root %x", n, zr, sr))
 			return
+		}
+		// the genesis header's body root is the root of an empty block body, by the specification's schema
+		if want, ok := codecsim.DefaultRoot(spec, "phase0.BeaconBlockBody"); ok {
+			if h, err := zst.LatestBlockHeader(); err != nil || h.BodyRoot != common.Root(want) {
+				s.viol("C13", "genesis-header-body-root", fmt.Sprintf("deposit log of %d entries: latest_block_header.body_root is not hash_tree_root(BeaconBlockBody()) = %x (MAX_DEPOSITS %d, MAX_VOLUNTARY_EXITS %d, MAX_ATTESTATIONS %d)", n, want, spec.MAX_DEPOSITS, spec.MAX_VOLUNTARY_EXITS, spec.MAX_ATTESTATIONS))
+				return
+			}
 		}
 		zv, err := phase0.IsValidGenesisState(spec, zst)
 		mv := refspec.IsValidGenesisState(spec, m)
